@@ -58,6 +58,16 @@ def poly_case(ck, c):
             got = sp.path_encloses_pt(pt, opt, p)
         except Exception as e:      # noqa
             got = e
+        # the same configuration drawn small and far from the origin (parity is invariant under similarities)
+        far = lambda w: 0.01 * w + (4000 + 3000j)
+        try:
+            got_far = sp.path_encloses_pt(far(pt), far(opt), sp.polygon(*[far(w) for w in pts]))
+        except Exception as e:      # noqa
+            got_far = e
+        if got_far is not pr['inside'] and got is pr['inside']:
+            ck.disagree(key='path_encloses_pt/far-from-origin', site='svgpathtools/path.py:path_encloses_pt/Path.intersect',
+                        what='polygon %s scaled by 0.01 and moved to 4000+3000j: path_encloses_pt = %r, crossing parity says %r' % (pts, got_far, pr['inside']),
+                        case={'poly': c['poly'], 'probe': pr['p'], 'far': True}, expected=pr['inside'], observed=repr(got_far), driver='enclosure')
         if got is not pr['inside']:
             ck.disagree(key='path_encloses_pt/%s' % ('raises' if isinstance(got, Exception) else 'parity'), site='svgpathtools/path.py:path_encloses_pt',
                         what='path_encloses_pt(%r, %r, polygon %s) = %r, crossing parity says %r' % (pt, opt, pts, got, pr['inside']),
@@ -96,6 +106,16 @@ def bez_cases(ck, bez):
             a, r = p.area(), p.reversed().area()
         except Exception as e:      # noqa
             a, r = e, e
+        if not isinstance(a, Exception):
+            # translation invariance, determinant scaling - also for paths mixing lines and curves
+            for what, q, e in (('translated', p.translated(3.5 - 2j), exp), ('translated far', p.translated(-700 + 900j), exp),
+                               ('scaled(2)', p.scaled(2), 4 * exp), ('scaled(-1,3)', p.scaled(-1, 3), -3 * exp)):
+                v = q.area()
+                if abs(v - e) > 1e-9 * (abs(e) + 64) * (1e4 if 'far' in what else 1):
+                    ck.disagree(key='Path.area/bezier-' + what.split('(')[0].replace(' ', '-'), site='svgpathtools/path.py:Path.area',
+                                what='closed Bezier path %r %s: area %r, expected %r' % (p, what, v, e), case={'path': b['path'], 'op': what},
+                                expected=e, observed=v, driver='bezier')
+                    break
         if isinstance(a, Exception) or abs(a - exp) > 1e-12 * 64 or abs(r + exp) > 1e-12 * 64:
             ck.disagree(key='Path.area/bezier', site='svgpathtools/path.py:Path.area', what='closed Bezier path %r: area %r, reversed %r, exact %r' % (p, a, r, exp),
                         case={'path': b['path']}, expected=exp, observed=repr(a), driver='bezier')
